@@ -428,7 +428,7 @@ extern "C" int LLVMFuzzerTestOneInput(const uint8_t *data, size_t size) {
       }
       if (rq) { evdns_getaddrinfo_cancel(rq); w.turn(); }
       CHECK(g.calls == 1, "C39/gai-callback-count", "getaddrinfo callback ran %d times for \"%s\"", g.calls, esc(name, 60).c_str());
-      servers_drain();
+      { std::vector<Seen> junk; hz.collect(&junk, false); hz.kept.clear(); }     // discard what the miss put on the wire (TCP connections stay open)
     }
   }
 
